@@ -112,7 +112,7 @@ impl Property for Faults {
     fn budget(&self, tier: Tier) -> Budget {
         Budget {
             cases: tier.pick(400_000, 25_000_000),
-            tape_len: 900,
+            tape_len: 2500,
         }
     }
     fn decode(&self, t: &mut Tape<'_>) -> FaultCase {
@@ -702,7 +702,7 @@ impl Property for NoFault {
     fn budget(&self, tier: Tier) -> Budget {
         Budget {
             cases: tier.pick(100_000, 5_000_000),
-            tape_len: 700,
+            tape_len: 2000,
         }
     }
     fn decode(&self, t: &mut Tape<'_>) -> Self::Case {
